@@ -695,18 +695,15 @@ impl Authentication for AuthenticationBuiltin {
   ) -> SecurityResult<(ValidationOutcome, Option<HandshakeMessageToken>)> {
     // Check what is the handshake state
     let remote_identity_handle = *self.handshake_handle_to_identity_handle(&handshake_handle)?;
-    let remote_info = self.get_remote_participant_info_mutable(&remote_identity_handle)?;
+    let remote_info = self.get_remote_participant_info(&remote_identity_handle)?;
 
-    // This trickery is needed because BuiltinHandshakeState contains
-    // key pairs, which cannot be cloned. We just move the "state" out and leave
-    // a dummy value behind. At the end of this function we will overwrite the
-    // dummy.
-    let mut state = BuiltinHandshakeState::PendingRequestSend; // dummy to leave behind
-    std::mem::swap(&mut remote_info.handshake.state, &mut state);
-
+    // BuiltinHandshakeState contains key pairs, which cannot be cloned and are
+    // consumed by the key agreement. The incoming message is therefore validated
+    // against the state *in place*; the state is taken out only after every check
+    // has passed. A message that fails validation leaves the handshake as it was.
     let local_info = self.get_local_participant_info()?;
 
-    match state {
+    match &remote_info.handshake.state {
       BuiltinHandshakeState::PendingReplyMessage {
         dh1,
         challenge1,
@@ -746,14 +743,14 @@ impl Authentication for AuthenticationBuiltin {
 
         // TODO: verify ocsp_status / status of IdentityCredential
 
-        if challenge1 != reply.challenge1 {
+        if *challenge1 != reply.challenge1 {
           return Err(create_security_error_and_log!(
             "Challenge 1 mismatch on authentication reply"
           ));
         }
 
         if let Some(received_hash_c1) = reply.hash_c1 {
-          if hash_c1 != received_hash_c1 {
+          if *hash_c1 != received_hash_c1 {
             return Err(create_security_error_and_log!(
               "Hash C1 mismatch on authentication reply"
             ));
@@ -837,9 +834,6 @@ impl Authentication for AuthenticationBuiltin {
 
         let dh1_public_key = dh1.public_key_bytes()?;
 
-        // Compute the shared secret
-        let shared_secret = dh1.compute_shared_secret(reply.dh2.clone())?;
-
         // Create signature for final message:
         // Sign( Hash(C1) | Challenge1 | DH1 | Challenge2 | DH2 | Hash(C2) ), see Table
         // 51
@@ -880,7 +874,7 @@ impl Authentication for AuthenticationBuiltin {
           hash_c1: Some(Bytes::copy_from_slice(hash_c1.as_ref())), // spec says this is optional
           dh1: Some(dh1_public_key), // spec says this is optional
           hash_c2: Some(Bytes::copy_from_slice(c2_hash_recomputed.as_ref())), // also optional
-          dh2: Some(reply.dh2), // also optional
+          dh2: Some(reply.dh2.clone()), // also optional
 
           // Only the following three parts are mandatory
           challenge1: Some(Bytes::copy_from_slice(reply.challenge1.as_ref())),
@@ -888,8 +882,19 @@ impl Authentication for AuthenticationBuiltin {
           signature: Some(final_contents_signature),
         };
 
-        // Change handshake state to Completed & save the final message token
+        // Everything checked out. Only now take the key pair out of the state and
+        // compute the shared secret.
+        let challenge1 = challenge1.clone();
         let remote_info = self.get_remote_participant_info_mutable(&remote_identity_handle)?;
+        let BuiltinHandshakeState::PendingReplyMessage { dh1, .. } = std::mem::replace(
+          &mut remote_info.handshake.state,
+          BuiltinHandshakeState::PendingRequestSend,
+        ) else {
+          unreachable!("handshake state was matched above")
+        };
+        let shared_secret = dh1.compute_shared_secret(reply.dh2)?;
+
+        // Change handshake state to Completed & save the final message token
         remote_info.handshake.state = BuiltinHandshakeState::CompletedWithFinalMessageSent {
           challenge1,
           challenge2: reply.challenge2,
@@ -924,7 +929,7 @@ impl Authentication for AuthenticationBuiltin {
 
         // This is a sanity check
         if let Some(received_hash_c1) = final_token.hash_c1 {
-          if hash_c1 != received_hash_c1 {
+          if *hash_c1 != received_hash_c1 {
             return Err(create_security_error_and_log!(
               "Hash C1 mismatch on authentication final receive"
             ));
@@ -933,7 +938,7 @@ impl Authentication for AuthenticationBuiltin {
 
         // This is a sanity check 2
         if let Some(received_hash_c2) = final_token.hash_c2 {
-          if hash_c2 != received_hash_c2 {
+          if *hash_c2 != received_hash_c2 {
             return Err(create_security_error_and_log!(
               "Hash C2 mismatch on authentication final receive"
             ));
@@ -941,7 +946,7 @@ impl Authentication for AuthenticationBuiltin {
         }
 
         // sanity check
-        if dh1_public != final_token.dh1 {
+        if *dh1_public != final_token.dh1 {
           return Err(create_security_error_and_log!(
             "Diffie-Hellman parameter DH1 mismatch on authentication final receive"
           ));
@@ -957,12 +962,12 @@ impl Authentication for AuthenticationBuiltin {
 
         // "The operation shall check that the challenge1 and challenge2 match the ones
         // that were sent on the HandshakeReplyMessageToken."
-        if challenge1 != final_token.challenge1 {
+        if *challenge1 != final_token.challenge1 {
           return Err(create_security_error_and_log!(
             "process_handshake: Final token challenge1 mismatch"
           ));
         }
-        if challenge2 != final_token.challenge2 {
+        if *challenge2 != final_token.challenge2 {
           //
           return Err(create_security_error_and_log!(
             "process_handshake: Final token challenge2 mismatch"
@@ -1007,11 +1012,22 @@ impl Authentication for AuthenticationBuiltin {
             )
           })?;
 
-        // Compute the shared secret
+        // Everything checked out. Only now take the key pair out of the state and
+        // compute the shared secret.
+        let (challenge1, challenge2) = (challenge1.clone(), challenge2.clone());
+        let remote_info = self.get_remote_participant_info_mutable(&remote_identity_handle)?;
+        let BuiltinHandshakeState::PendingFinalMessage {
+          dh2, dh1_public, ..
+        } = std::mem::replace(
+          &mut remote_info.handshake.state,
+          BuiltinHandshakeState::PendingRequestMessage,
+        )
+        else {
+          unreachable!("handshake state was matched above")
+        };
         let shared_secret = dh2.compute_shared_secret(dh1_public)?;
 
         // Change handshake state to Completed
-        let remote_info = self.get_remote_participant_info_mutable(&remote_identity_handle)?;
         remote_info.handshake.state = BuiltinHandshakeState::CompletedWithFinalMessageReceived {
           challenge1,
           challenge2,
